@@ -203,6 +203,11 @@ POST = [
     ["alias"],
 ]
 POST_ALIAS = [["filter", [["gt", Cn("k"), lit(1)]]], ["filter", [["ge", Cn("w"), lit(1)]]]]
+# the window column is hidden, rows are filtered, and the hidden column is used again
+# through the reference taken while it was visible (SQL has to refuse the filter or
+# evaluate the window function before it)
+SELECT_HIDE = ["select", [Cn("k"), Cn("x")]]
+FILTER_AFTER_HIDE = ["filter", [["gt", Cn("k"), lit(1)]]]
 
 
 def win_alphabet(st, hist):
@@ -219,11 +224,18 @@ def win_alphabet(st, hist):
         if kinds == ["arrange", "slice_head", "alias"]:
             return WIN_C
         return []
-    after = kinds[kinds.index("mutate") + 1:]
+    i_mut = kinds.index("mutate")
+    after = kinds[i_mut + 1:]
     if not after:
-        return POST
+        return POST + [SELECT_HIDE]
     if after == ["alias"]:
         return POST_ALIAS
+    if after == ["select"] and hist[-1] == SELECT_HIDE:
+        return [FILTER_AFTER_HIDE, ["alias", None, True]]
+    if after == ["select", "alias"] and hist[-2] == SELECT_HIDE:
+        return [FILTER_AFTER_HIDE]
+    if after[-1] == "filter" and SELECT_HIDE in hist:
+        return [["mutate", [["v", ["col", "at", i_mut + 1, "w"]]]], ["arrange", [["nulls_last", ["col", "at", i_mut + 1, "w"]], Cn("k")]]]
     return []
 
 
@@ -289,6 +301,7 @@ def describe(tier):
             "functions": "row_number rank dense_rank shift(+1) shift(-1, fill) cum_sum sum mean min max count count() any all",
             "partition": "none | partition_by=g | partition_by=x | enclosing group_by(g) | partition_by + enclosing group",
             "order": [T.py_expr(["row_number", {"arrange": o}]) for o in order_specs("src")],
+            "hidden_reuse": "window column hidden by select, rows filtered (directly / after alias(keep_col_refs=True)), hidden column reused through its old reference in mutate / arrange",
             "positions": "first verb; after filter / rename / group_by / arrange; after arrange>>slice_head (refused on SQL) and after arrange>>slice_head>>alias; before filter (on k / on the window column, direct and after alias), select, ungroup, slice_head",
             "sample_events": [T.py_event(e) for e in WIN_SRC[::17]],
         },
